@@ -555,10 +555,10 @@ func (a *Activation) step(instr ssa.Instruction, st *State) *State {
 	case *ssa.MakeChan:
 		ref := a.allocRef(st, "chan", "makechan")
 		sz := a.val(in.Size, st)
-		t.regArray("$chancap", "(Array Int Int)")
-		t.regArray("$chanlen", "(Array Int Int)")
+		a.chanArrays()
 		t.set(st, "$chancap", sApp("store", t.lookup(st, "$chancap"), ref, sz.S))
-		t.set(st, "$chanlen", sApp("store", t.lookup(st, "$chanlen"), ref, "0"))
+		t.set(st, "$tok", sApp("store", t.lookup(st, "$tok"), ref, "0"))
+		t.set(st, "$sends", sApp("store", t.lookup(st, "$sends"), ref, "0"))
 		a.env[in] = Val{K: KRef, T: in.Type(), S: ref}
 	case *ssa.MakeMap:
 		ref := a.allocRef(st, "map", "makemap")
